@@ -12,9 +12,9 @@ Three layers, all import-free and executable:
    instructions `dst ← op(args)` / `delete` / `move` / `require` on a key→value store; the builder
    itself (`build : Config → List Stage`) mirrors `build_mri_transforms`.
 3. **The degree type system**: `typeInstr` computes for every key a homogeneity degree in the input
-   scale, a spatial-shape tag and an SSA version (with a table of definitions) — a static analysis
-   that the theorems of `Props/C08.lean` prove sound w.r.t. layer 2 and that `decide` runs on the
-   stage table generated from the current source (`Gen/C08.lean`).
+   scale (a second instance of the same abstract interpreter computes spatial-shape tags) — a static
+   analysis that the theorems of `Props/C08.lean` prove sound w.r.t. layer 2 and evaluate (`decide`)
+   on the builder; `Gen/C08.lean` (translated from the current source) is tied to `build` by `Bridge/C08.lean`.
 -/
 namespace DirectVerif.Pipeline
 
@@ -476,29 +476,114 @@ def run (S : Ops K) (X : Ext K) (m : Meta) (l : List Stage) (kspace : Val K) : E
 
 /-! ## the degree type system (static) -/
 
-/-- spatial shape tag -/
+/-- static environment: key ↦ abstract value of the tensor stored under it, `none` = absent -/
+abbrev AEnv (α : Type) := Key → Option α
+
+def AEnv.set {α} (e : AEnv α) (k : Key) (t : Option α) : AEnv α := fun k' => if k' = k then t else e k'
+
+def getAllA {α} (e : AEnv α) : List Key → Except Err (List α)
+  | [] => .ok []
+  | k :: ks => match e k with
+      | none => .error (.keyError k)
+      | some t => match getAllA e ks with
+          | .ok ts => .ok (t :: ts)
+          | .error er => .error er
+
+/-- abstract execution of one instruction under a rule `Op → abstract args → abstract result`;
+presence of keys is tracked exactly as `execInstr` does -/
+def absInstr {α} (rule : Op → List α → Except Err α) (i : Instr) (e : AEnv α) : Except Err (AEnv α) :=
+  match i with
+  | .assign guards dst op args =>
+      if guards.all (fun g => (e g).isSome) then
+        match getAllA e args with
+        | .ok ts => match rule op ts with
+            | .ok t => .ok (e.set dst (some t))
+            | .error er => .error er
+        | .error er => .error er
+      else .ok e
+  | .delete k => .ok (e.set k none)
+  | .move src dst => match e src with
+      | some t => .ok ((e.set src none).set dst (some t))
+      | none => .ok e
+  | .require k => if (e k).isSome then .ok e else .error (.keyError k)
+
+def absProgram {α} (rule : Op → List α → Except Err α) : List Instr → AEnv α → Except Err (AEnv α)
+  | [], e => .ok e
+  | i :: is, e => match absInstr rule i e with
+      | .ok e' => absProgram rule is e'
+      | .error er => .error er
+
+/-- **degree rule** of every primitive: homogeneity degrees of the arguments ↦ degree of the result
+(`safeDiv : d₁, d₂ ↦ d₂ − d₁` for `[divisor, dividend]`; percentile / max / rss / modulus / linear
+maps `d ↦ d`; the relative threshold and the generated masks `↦ 0`; masking `(0, d) ↦ d`) -/
+def opDeg : Op → List Int → Except Err Int
+  | .lin _, [x] => .ok x
+  | .applyMask, [m, x] => if m = 0 then .ok x else .error (.typeError .samplingMask)
+  | .applyPadding, [p, x] => if p = 0 then .ok x else .error (.typeError .padding)
+  | .sumAbs, [x] => .ok x
+  | .threshold p, [_] => if p.homogeneous then .ok 0 else .error (.typeError .padding)
+  | .extMask _ _ _, [_] => .ok 0
+  | .rss, [x] => .ok x
+  | .safeDiv, [y, x] => .ok (x - y)
+  | .unitMap, [_] => .ok 0
+  | .kthModulus, [x] => .ok x
+  | .maxModulus, [x] => .ok x
+  | .constOne, [_] => .ok 0
+  | .sumCoils, [x] => .ok x
+  | .modulus, [x] => .ok x
+  | .senseCombine, [s, x] => .ok (s + x)
+  | .padCoils, [x] => .ok x
+  | .split _ _ _, [m] => if m = 0 then .ok 0 else .error (.typeError .samplingMask)
+  | .split _ _ _, [m, a] => if m = 0 && a = 0 then .ok 0 else .error (.typeError .samplingMask)
+  | _, _ => .error .unsupported
+
+abbrev TEnv := AEnv Int
+def typeInstr : Instr → TEnv → Except Err TEnv := absInstr opDeg
+def typeProgram : List Instr → TEnv → Except Err TEnv := absProgram opDeg
+
+/-- the raw sample: only `kspace`, of degree 1 -/
+def initEnv : TEnv := fun k => if k = .kspace then some 1 else none
+
+/-- output keys the property calls *normalised* -/
+def normalisedKeys : List Key :=
+  [.kspace, .maskedKspace, .target, .sensitivityMap, .samplingMask, .acsMask, .padding, .inputKspace,
+   .inputSamplingMask, .targetSamplingMask, .inputMaskedKspace, .targetMaskedKspace]
+
+def degIs (e : TEnv) (k : Key) (d : Int) : Bool :=
+  match e k with | some t => t == d | none => false
+def degIsOrAbsent (e : TEnv) (k : Key) (d : Int) : Bool :=
+  match e k with | some t => t == d | none => true
+
+/-- what the property requires of the final static environment -/
+def finalOk (ssl : Bool) (e : TEnv) : Bool :=
+  degIs e .scalingFactor 1 && normalisedKeys.all (fun k => degIsOrAbsent e k 0)
+  && degIs e .target 0 && (if ssl then degIs e .inputKspace 0 && degIs e .kspace 0 else degIs e .maskedKspace 0)
+  && (e .t1).isNone && (e .t2).isNone
+
+/-- **well-typedness of a stage list**: it type-checks from the raw sample, the scaling factor has
+degree 1, every normalised key that is present has degree 0, the network inputs are present and no
+temporaries leak -/
+def degreesOk (ssl : Bool) (l : List Stage) : Bool :=
+  match typeProgram (program l) initEnv with
+  | .error _ => false
+  | .ok e => finalOk ssl e
+
+/-- configurations the property quantifies over (see `properties.jsonl`): a mask function is given,
+the scaling key is one of the k-spaces (or the body-coil image when that is estimated), SENSE
+reconstructions have maps, maps are not ESPIRiT (opaque eigen-iteration), ACS kept in the SSL split only
+when there is an ACS mask -/
+def Config.valid (c : Config) : Bool :=
+  c.maskFunc
+  && (c.scalingKey == .key .maskedKspace || c.scalingKey == .key .kspace
+      || (c.scalingKey == .key .bodyCoilImage && c.bodyCoil))
+  && (!(c.recon == .sense || c.recon == .senseMod) || c.estimateSmaps)
+  && (!c.estimateSmaps || c.smapType != .espirit)
+  && (!c.splitKeepAcs || (c.ssl && c.estimateSmaps))
+
+/-! ## spatial shape tags (second, independent abstract interpretation — for `crop_shape`) -/
+
 inductive Sp | raw | cropped | rescaled | padded | scalar
   deriving DecidableEq, Repr, Inhabited
-
-structure Ty where
-  deg : Int
-  sp : Sp
-  ver : Nat
-  deriving DecidableEq, Repr, Inhabited
-
-structure Def where
-  ver : Nat
-  op : Op
-  args : List Nat
-  deriving DecidableEq, Repr, Inhabited
-
-structure TEnv where
-  get : Key → Option Ty
-  next : Nat
-  defs : List Def
-
-def TEnv.set (e : TEnv) (k : Key) (t : Option Ty) : TEnv :=
-  { e with get := fun k' => if k' = k then t else e.get k' }
 
 def Lin.sp : Lin → Sp → Sp
   | .crop _ _, _ => .cropped | .cropMask, _ => .cropped | .rescale, _ => .rescaled | .pad, _ => .padded
@@ -507,196 +592,44 @@ def Lin.sp : Lin → Sp → Sp
 /-- broadcast compatibility of a per-pixel / scalar operand with a tensor -/
 def spCompat (small big : Sp) : Bool := small == big || small == .scalar
 
-/-- typing rule of every primitive: degrees and shape tags of the arguments ↦ those of the result -/
-def opType : Op → List Ty → Except Err (Int × Sp)
-  | .lin l, [x] => .ok (x.deg, l.sp x.sp)
-  | .applyMask, [m, x] => if m.deg = 0 then (if spCompat m.sp x.sp then .ok (x.deg, x.sp) else .error (.shapeMismatch .samplingMask))
-                          else .error (.typeError .samplingMask)
-  | .applyPadding, [p, x] => if p.deg = 0 then (if spCompat p.sp x.sp then .ok (x.deg, x.sp) else .error (.shapeMismatch .padding))
-                             else .error (.typeError .padding)
-  | .sumAbs, [x] => .ok (x.deg, x.sp)
-  | .threshold p, [x] => if p.homogeneous then .ok (0, x.sp) else .error (.typeError .padding)
-  | .extMask _ _ fromCrop, [x] => .ok (0, if fromCrop then .cropped else x.sp)
-  | .rss, [x] => .ok (x.deg, x.sp)
-  | .safeDiv, [y, x] => if spCompat y.sp x.sp then .ok (x.deg - y.deg, x.sp) else .error (.shapeMismatch .scalingFactor)
-  | .unitMap, [x] => .ok (0, x.sp)
-  | .kthModulus, [x] => .ok (x.deg, .scalar)
-  | .maxModulus, [x] => .ok (x.deg, .scalar)
-  | .constOne, [_] => .ok (0, .scalar)
-  | .sumCoils, [x] => .ok (x.deg, x.sp)
-  | .modulus, [x] => .ok (x.deg, x.sp)
-  | .senseCombine, [s, x] => if spCompat s.sp x.sp && spCompat x.sp s.sp then .ok (s.deg + x.deg, x.sp)
-                             else .error (.shapeMismatch .sensitivityMap)
-  | .padCoils, [x] => .ok (x.deg, x.sp)
-  | .split _ _ _, [m] => if m.deg = 0 then .ok (0, m.sp) else .error (.typeError .samplingMask)
-  | .split _ _ _, [m, a] => if m.deg = 0 && a.deg = 0 then .ok (0, m.sp) else .error (.typeError .samplingMask)
+def opSp : Op → List Sp → Except Err Sp
+  | .lin l, [x] => .ok (l.sp x)
+  | .applyMask, [m, x] => if spCompat m x then .ok x else .error (.shapeMismatch .samplingMask)
+  | .applyPadding, [p, x] => if spCompat p x then .ok x else .error (.shapeMismatch .padding)
+  | .sumAbs, [x] => .ok x
+  | .threshold _, [x] => .ok x
+  | .extMask _ _ fromCrop, [x] => .ok (if fromCrop then .cropped else x)
+  | .rss, [x] => .ok x
+  | .safeDiv, [y, x] => if spCompat y x then .ok x else .error (.shapeMismatch .scalingFactor)
+  | .unitMap, [x] => .ok x
+  | .kthModulus, [_] => .ok .scalar
+  | .maxModulus, [_] => .ok .scalar
+  | .constOne, [_] => .ok .scalar
+  | .sumCoils, [x] => .ok x
+  | .modulus, [x] => .ok x
+  | .senseCombine, [s, x] => if s == x then .ok x else .error (.shapeMismatch .sensitivityMap)
+  | .padCoils, [x] => .ok x
+  | .split _ _ _, [m] => .ok m
+  | .split _ _ _, [m, a] => if m == a then .ok m else .error (.shapeMismatch .acsMask)
+  | .espirit, [x] => .ok x
   | _, _ => .error .unsupported
 
-def getAllTy (e : TEnv) : List Key → Except Err (List Ty)
-  | [] => .ok []
-  | k :: ks => match e.get k with
-      | none => .error (.keyError k)
-      | some t => match getAllTy e ks with
-          | .ok ts => .ok (t :: ts)
-          | .error er => .error er
+def initSp : AEnv Sp := fun k => if k = .kspace then some .raw else none
 
-def typeInstr (i : Instr) (e : TEnv) : Except Err TEnv :=
-  match i with
-  | .assign guards dst op args =>
-      if guards.all (fun g => (e.get g).isSome) then
-        match getAllTy e args with
-        | .ok ts => match opType op ts with
-            | .ok (d, sp) =>
-                .ok { (e.set dst (some ⟨d, sp, e.next⟩)) with
-                      next := e.next + 1, defs := ⟨e.next, op, ts.map (·.ver)⟩ :: e.defs }
-            | .error er => .error er
-        | .error er => .error er
-      else .ok e
-  | .delete k => .ok (e.set k none)
-  | .move src dst => match e.get src with
-      | some t => .ok ((e.set src none).set dst (some t))
-      | none => .ok e
-  | .require k => if (e.get k).isSome then .ok e else .error (.keyError k)
-
-def typeProgram : List Instr → TEnv → Except Err TEnv
-  | [], e => .ok e
-  | i :: is, e => match typeInstr i e with
-      | .ok e' => typeProgram is e'
-      | .error er => .error er
-
-/-- the raw sample: only `kspace`, of degree 1 -/
-def initEnv : TEnv := { get := fun k => if k = .kspace then some ⟨1, .raw, 0⟩ else none, next := 1, defs := [] }
-
-/-- output keys the property calls *normalised* -/
-def normalisedKeys : List Key :=
-  [.kspace, .maskedKspace, .target, .sensitivityMap, .samplingMask, .acsMask, .padding, .inputKspace,
-   .inputSamplingMask, .targetSamplingMask, .inputMaskedKspace, .targetMaskedKspace]
-
-def degIs (e : TEnv) (k : Key) (d : Int) : Bool :=
-  match e.get k with | some t => t.deg == d | none => false
-def degIsOrAbsent (e : TEnv) (k : Key) (d : Int) : Bool :=
-  match e.get k with | some t => t.deg == d | none => true
-
-/-- **well-typedness of a stage list**: it type-checks from the raw sample, the scaling factor has
-degree 1, every normalised key that is present has degree 0, the network inputs are present and no
-temporaries leak -/
-def degreesOk (ssl : Bool) (l : List Stage) : Bool :=
-  match typeProgram (program l) initEnv with
-  | .error _ => false
-  | .ok e =>
-      degIs e .scalingFactor 1 && normalisedKeys.all (fun k => degIsOrAbsent e k 0)
-      && degIs e .target 0 && (if ssl then degIs e .inputKspace 0 && degIs e .kspace 0 else degIs e .maskedKspace 0)
-      && (e.get .t1).isNone && (e.get .t2).isNone
-
-/-- configurations the property quantifies over (see `properties.jsonl`): a mask function is given,
-the scaling key is one of the k-spaces, SENSE reconstructions have maps, maps are not ESPIRiT, a tuple
-crop is not combined with a later change of the spatial size (the mask would have the crop shape) -/
-def Config.valid (c : Config) : Bool :=
-  c.maskFunc
-  && (c.scalingKey == .key .maskedKspace || c.scalingKey == .key .kspace
-      || (c.scalingKey == .key .bodyCoilImage && c.bodyCoil))
-  && (!(c.recon == .sense || c.recon == .senseMod) || c.estimateSmaps)
-  && (!c.estimateSmaps || c.smapType != .espirit)
-  && (!(c.crop == .tuple) || (!c.rescale && !c.pad))
-  && (!c.splitKeepAcs || (c.ssl && c.estimateSmaps))
-
-/-! ## structural facts read off the SSA definitions -/
-
-def TEnv.defOf (e : TEnv) (v : Nat) : Option Def := e.defs.find? (fun d => d.ver == v)
-
-/-- `masked_kspace = safeDiv(s, applyMask(m, k))` with `m` the current sampling mask, `s` the current
-scaling factor, and (when still present) `kspace = safeDiv(s, k)`: returns `(m, s, k)` -/
-def maskedShape (e : TEnv) (maskedKey maskKey : Key) : Option (Nat × Nat × Nat) :=
-  match e.get maskedKey with
-  | none => none
-  | some tm =>
-    match e.defOf tm.ver with
-    | some ⟨_, .safeDiv, [s, a]⟩ =>
-      match e.defOf a with
-      | some ⟨_, .applyMask, [m, k]⟩ =>
-          if (match e.get maskKey with | some t => t.ver == m | none => false)
-             && (match e.get .scalingFactor with | some t => t.ver == s | none => false)
-          then some (m, s, k) else none
-      | _ => none
-    | _ => none
-
-/-- is version `v` defined as `safeDiv(s, k)`? -/
-def isNormalisedOf (e : TEnv) (v s k : Nat) : Bool :=
-  match e.defOf v with
-  | some ⟨_, .safeDiv, [s', k']⟩ => s' == s && k' == k
-  | _ => false
-
-/-- the version of the tensor the target was reconstructed from: follows the definition chain of
-`target` back through `modulus`/`sumCoils`/`rss`/`senseCombine` to `lin bwd [src]` -/
-def reconSource (e : TEnv) : Nat → Nat → Option Nat
-  | 0, _ => none
-  | fuel + 1, v =>
-    match e.defOf v with
-    | some ⟨_, .lin .bwd, [src]⟩ => some src
-    | some ⟨_, .modulus, [a]⟩ => reconSource e fuel a
-    | some ⟨_, .sumCoils, [a]⟩ => reconSource e fuel a
-    | some ⟨_, .rss, [a]⟩ => reconSource e fuel a
-    | some ⟨_, .senseCombine, [_, a]⟩ => reconSource e fuel a
-    | _ => none
-
-/-- **self-consistency of a stage list** (supervised): masked k-space is the mask applied to the
-fully sampled k-space, both divided by the reported scaling factor, and the target is reconstructed
-from exactly that normalised fully sampled k-space -/
-def consistentOk (l : List Stage) : Bool :=
-  match typeProgram (program l) initEnv with
-  | .error _ => false
-  | .ok e =>
-    match maskedShape e .maskedKspace .samplingMask with
-    | none => false
-    | some (_, s, k) =>
-      (match e.get .kspace with | some t => isNormalisedOf e t.ver s k | none => true)
-      && (match e.get .target with
-          | some t => (match reconSource e 4 t.ver with
-                       | some src => isNormalisedOf e src s k
-                       | none => false)
-          | none => false)
-
-/-- is version `v` defined as `applyMask(m, k)`? -/
-def isMaskedOf (e : TEnv) (v m k : Nat) : Bool :=
-  match e.defOf v with
-  | some ⟨_, .applyMask, [m', k']⟩ => m' == m && k' == k
-  | _ => false
-
-def verOf (e : TEnv) (k : Key) : Option Nat := (e.get k).map (·.ver)
-
-/-- **self-consistency, SSL variant**: `input_kspace` / `kspace` are the input / target split masks
-applied to one tensor `mk`, which is `safeDiv(s, applyMask(m, k))` (the normalised masked k-space), and
-the target is reconstructed from the output `kspace` -/
-def consistentSslOk (l : List Stage) : Bool :=
-  match typeProgram (program l) initEnv with
-  | .error _ => false
-  | .ok e =>
-    match verOf e .inputKspace, verOf e .kspace, verOf e .inputSamplingMask, verOf e .targetSamplingMask,
-          verOf e .target, verOf e .scalingFactor with
-    | some ik, some tk, some im, some tm, some tg, some s =>
-      (match e.defOf ik with
-       | some ⟨_, .applyMask, [im', mk]⟩ =>
-           im' == im && isMaskedOf e tk tm mk
-           && (match e.defOf mk with
-               | some ⟨_, .safeDiv, [s', a]⟩ => s' == s && (match e.defOf a with
-                   | some ⟨_, .applyMask, [_, _]⟩ => true | _ => false)
-               | _ => false)
-       | _ => false)
-      && (match reconSource e 4 tg with | some src => src == tk | none => false)
-    | _, _, _, _, _, _ => false
-
-/-- spatial tags: every tensor output carries the crop shape -/
+/-- every tensor output (all keys but the scalar scaling factor) carries the crop shape, and all
+broadcasts along the way were between equal shapes -/
 def cropShapeOk (l : List Stage) : Bool :=
-  match typeProgram (program l) initEnv with
+  match absProgram opSp (program l) initSp with
   | .error _ => false
-  | .ok e => [Key.kspace, .maskedKspace, .target, .sensitivityMap, .samplingMask, .inputKspace,
-              .inputSamplingMask, .targetSamplingMask].all fun k =>
-      match e.get k with | some t => t.sp == .cropped | none => true
+  | .ok e => [Key.kspace, .maskedKspace, .target, .sensitivityMap, .samplingMask, .acsMask, .padding,
+              .inputKspace, .inputSamplingMask, .targetSamplingMask, .bodyCoilImage].all fun k =>
+      match e k with | some t => t == .cropped | none => true
 
-/-- the seed expressions of the sampling-mask generation mention the file name only -/
+/-- the seed expressions of the sampling-mask / ACS-mask generation mention the file name only -/
 def seedsOk : List Instr → Bool
   | [] => true
-  | .assign _ _ (.extMask _ (some fields) _) _ :: r => fields.all (· == .filename) && seedsOk r
+  | .assign _ dst (.extMask _ (some fields) _) _ :: r =>
+      ((dst != .samplingMask && dst != .acsMask) || fields.all (· == .filename)) && seedsOk r
   | .assign _ dst (.extMask _ none _) _ :: r => dst != .samplingMask && dst != .acsMask && seedsOk r
   | _ :: r => seedsOk r
 
